@@ -36,6 +36,7 @@ M = [
  ('accepts the empty match rule', 'C12', "AddMatch('') - the rule without constraints - raised ValueError in the bus rule parser"),
  ("does not list a child with an empty name", 'C16', "Introspect('/') with an object exported at '/' listed a child with an empty name"),
  ('rejects a value list whose length differs', 'C10', "a method declared to return 'us' returning (3,): reply sent with a SIGNATURE header not matching its body instead of an error reply"),
+ ('answers GetId with its id as a string', 'C14', 'GetId - a call addressed to the bus itself - was always answered with a MarshallingError error reply (bytes returned for a declared string)'),
  ('RequestName queues a requester', 'C13', 'request without the replace flag refused instead of queued; a waiting client requesting again queued twice'),
  ('waiting for a name leaves the queue', 'C13', 'ReleaseName by a queued client answered NOT_OWNER and left it queued; a queued client that disconnected later became a dead owner'),
 ]
